@@ -303,10 +303,10 @@ func (u *upstream) removeClientLocked(addr string) {
 }
 
 func (u *upstream) resetAllClients() {
-	old := u.loadClients()
-
-	// set clients to empty
+	// set clients to empty, the snapshot must be taken under the lock, otherwise
+	// a client registered in between would be dropped without being stopped.
 	u.clientsMu.Lock()
+	old := u.loadClients()
 	u.updateClients(make(map[string]*client))
 	u.clientsMu.Unlock()
 
